@@ -205,7 +205,15 @@ def random_region(rnd):
 
     def s(lo=0.6, hi=40.0):
         v = rnd.uniform(lo, hi) * (mag if pix else 1.0)
-        return v if pix else (v * rnd.choice([1 / 3600., 1 / 60., 0.1])) * u.deg
+        if pix:
+            return v
+        # from a twentieth of an arcsecond to degrees; as a plain Quantity or as an Angle (the writer treats the two types separately,
+        # and below 1e-4 deg a Quantity is printed with an exponent)
+        q = (v * rnd.choice([1 / 3600., 1 / 60., 0.1, 1 / 36000.])) * u.deg
+        if rnd.random() < 0.3:
+            from astropy.coordinates import Angle
+            q = Angle(q)
+        return q
     a = rnd.uniform(-180, 360) * rnd.choice([u.deg, u.deg, u.rad / 57.29577951308232])
     meta, visual = {}, {}
     if rnd.random() < 0.5:
